@@ -802,6 +802,7 @@ pub fn families(nmax: usize) -> Vec<(String, Vec<Op>)> {
         out.push((format!("big: one stage of {} groups; barrier; writer", n), (0..n).map(|i| s(nm(i), &[0], &[], 3, vec![])).chain([Op::Barrier, s("w".into(), &[], &[0], 3, vec![])]).collect()));
         out.push((format!("big: dependency chain of {}", n), (0..n).map(|i| s(nm(i), &[], &[], 3, if i == 0 { vec![] } else { vec![nm(i - 1)] })).collect()));
         out.push((format!("big: sink depending on {} systems", n), (0..n).map(|i| s(nm(i), &[], &[], 3, vec![])).chain([s("sink".into(), &[], &[], 3, (0..n).map(nm).collect())]).collect()));
+        out.push((format!("big: {} barriers", n), (0..n).flat_map(|i| vec![free(&nm(i)), Op::Barrier]).chain([free("x"), free("y"), Op::Barrier, free("z")]).collect()));
         out.push((format!("big: {} thread-local systems", n), (0..n).map(|_| Op::Tl(SysSpec { name: String::new(), reads: vec![], writes: vec![], time: 3, deps: vec![] })).chain([free("x")]).collect()));
     }
     for n in 1..=nmax {
@@ -823,6 +824,28 @@ pub fn families(nmax: usize) -> Vec<(String, Vec<Op>)> {
             format!("two-lanes({})", n),
             (0..n).map(|i| if i % 2 == 0 { s(nm(i), &[], &[0], 1 + (i % 5) as u8, vec![]) } else { s(nm(i), &[], &[1], 1 + ((i / 2) % 5) as u8, vec![]) }).collect(),
         ));
+        // n effective barriers: n resource-less systems each followed by a barrier, then two free systems, a barrier
+        // and one more; the same with every barrier doubled, and with a leading barrier
+        {
+            let free = |name: String| s(name, &[], &[], 3, vec![]);
+            let mut v: Vec<Op> = Vec::new();
+            let mut v2: Vec<Op> = vec![Op::Barrier];
+            for i in 0..n {
+                v.push(free(nm(i)));
+                v.push(Op::Barrier);
+                v2.push(free(nm(i)));
+                v2.push(Op::Barrier);
+                v2.push(Op::Barrier);
+            }
+            for w in [&mut v, &mut v2] {
+                w.push(free("x".into()));
+                w.push(free("y".into()));
+                w.push(Op::Barrier);
+                w.push(free("z".into()));
+            }
+            out.push((format!("barriers({})", n), v));
+            out.push((format!("doubled-barriers({})", n), v2));
+        }
         if n <= 8 {
             // fan-in: n sources, one sink depending on all of them
             let mut v: Vec<Op> = (0..n).map(|i| s(nm(i), &[], &[], 3, vec![])).collect();
@@ -852,6 +875,15 @@ pub fn families(nmax: usize) -> Vec<(String, Vec<Op>)> {
                 format!("batch-wide-inner({})", n),
                 vec![Op::Batch(BatchSpec { name: "b".into(), deps: vec![], ctrl: CtrlData::ReadA, times: 2, multi: false, fetch_data: false, inner: (0..n).map(|i| s(nm(i), &[], &[], 3, vec![])).collect() })],
             ));
+            // the ballast shapes as the INNER plan of a batch (the inner builder fills its groups like any other), and a
+            // batch registered behind them
+            {
+                let ballast = |v: Vec<Op>| -> Vec<Op> { std::iter::once(s("ballast".into(), &[], &[1], 5, vec![])).chain(v).collect() };
+                let bt = |inner: Vec<Op>| Op::Batch(BatchSpec { name: "b".into(), deps: vec![], ctrl: CtrlData::Unit, times: 1, multi: false, fetch_data: false, inner });
+                out.push((format!("batch-inner-ballast+writers({})", n), vec![bt(ballast((0..n).map(|i| s(nm(i), &[], &[0], 1, vec![])).collect()))]));
+                out.push((format!("batch-inner-ballast+dep-chain({})", n), vec![bt(ballast((0..n).map(|i| s(nm(i), &[], &[], 1, if i == 0 { vec![] } else { vec![nm(i - 1)] })).collect()))]));
+                out.push((format!("ballast+writers({})+batch-writing-the-same", n), ballast((0..n).map(|i| s(nm(i), &[], &[0], 1, vec![])).chain(std::iter::once(bt(vec![s("x".into(), &[], &[0], 1, vec![])]))).collect())));
+            }
             out.push((
                 format!("batch-of-thread-local({})", n),
                 vec![Op::Batch(BatchSpec { name: "b".into(), deps: vec![], ctrl: CtrlData::Unit, times: 1, multi: false, fetch_data: false, inner: (0..n).map(|_| tl(&[])).collect() })],
